@@ -94,6 +94,8 @@ class Summaries:
             w('%sPANIC %s @ %s\n' % (pad, o['why'], o['span']))
         elif k == 'top':
             w('%sTOP %s\n' % (pad, o['why']))
+        elif k == 'cut':
+            w('%sCUT %s\n' % (pad, o['why']))
         elif k == 'ite':
             w('%sIF %s\n' % (pad, self.show(o['c'])))
             self.print_out(o['t'], ind + 1, out)
@@ -114,7 +116,7 @@ def leaves(o, guards=()):
     if o is None:
         return
     k = o['k']
-    if k in ('ret', 'panic', 'top'):
+    if k in ('ret', 'panic', 'top', 'cut'):
         yield guards, o
     elif k == 'ite':
         yield from leaves(o['t'], guards + (('ite', o['c'], True),))
